@@ -79,6 +79,14 @@ def _same(a, b):
     return tuple(a.shape) == tuple(b.shape) and sand(*[x == y for x, y in zip(a.toarray()._flat(), b.toarray()._flat())])
 
 
+def _tiny_buffers(est, cap):
+    """replace the estimator's buffer sizing by a fixed tiny capacity per window, so that the accumulator's flush /
+    merge / growth paths run inside the driver loop (the same override is applied to the real estimator in the replay)"""
+    def _set(token_sequences):
+        est._coo_sizes = np.full(est._n_wide, cap, dtype=np.int64)
+    est._set_coo_sizes = _set
+
+
 def h_family(ex, kind, fit_shape, tr_shape, cfg):
     C = _cls(kind)
     X = _corpus(kind, "x", fit_shape)
@@ -96,10 +104,14 @@ def h_family(ex, kind, fit_shape, tr_shape, cfg):
     if cfg.get("kernel_args") is not None:
         kw["kernel_args"] = cfg["kernel_args"]
     est = C(**kw)
+    if cfg.get("cap"):
+        _tiny_buffers(est, cfg["cap"])
     M = _run(est.fit_transform, X)
     V = len(est.token_label_dictionary_)
     nb = M.shape[1] // V if V else 0
-    check("fit_transform: shape (n_vocab, n_vocab * n_blocks)", M.shape[0] == V and V * nb == M.shape[1] and nb >= 1)
+    # rows are tokens (n-grams for the n-gram vectorizer, whose row count is its own n-gram dictionary), columns are
+    # n_blocks blocks of n_vocab token columns
+    check("fit_transform: shape (rows, n_vocab * n_blocks)", (kind == "ngram" or M.shape[0] == V) and V * nb == M.shape[1] and nb >= 1)
     check("fit_transform: no NaN / uninitialised cell", not has_nan(M.data) and not has_poison(M.data))
     est2 = C(**kw)
     r = _run(est2.fit, X)
@@ -138,6 +150,10 @@ def grid(tier):
         G.append(("timed", [3], None, dict(radii=1, orientations="before", n_iter=1)))
         G.append(("ngram", [3], [2], dict(radii=1, orientations="after", normalize_windows=False)))
         G.append(("ngram", [4], None, dict(radii=1, orientations="directional", mem="1k")))
+        # tiny accumulator buffers: flush, merge and growth happen inside the driver loop; result vs. default buffers
+        G.append(("timed", [4], None, dict(radii=2, orientations="after", normalize_windows=False, cap=3, alt=dict(n_threads=1))))
+        G.append(("multiset", [[2, 2]], None, dict(radii=1, orientations="after", normalize_windows=False, cap=3, alt=dict(n_threads=1))))
+        G.append(("ngram", [4], None, dict(radii=2, orientations="after", normalize_windows=False, cap=3, alt=dict(n_threads=1))))
     else:
         for kind, shapes in (("multiset", [([[2, 1]], [[1, 1]]), ([[1, 1], [2]], [[2]]), ([[1, 1, 1]], None), ([[2, 2]], [[1]])]),
                              ("timed", [([3], [2]), ([2, 2], [1]), ([4], None)]),
@@ -149,6 +165,8 @@ def grid(tier):
                 G.append((kind, f, t, dict(radii=2, orientations="directional", mem="1k", alt=dict(n_threads=2, coo_initial_memory="0.5 GiB"))))
                 G.append((kind, f, None, dict(radii=1, orientations="after", n_iter=1)))
                 G.append((kind, f, None, dict(radii=2, orientations="symmetric", n_iter=2)))
+                for cap in (2, 3, 4, 5):
+                    G.append((kind, f, None, dict(radii=2, orientations="directional", normalize_windows=False, cap=cap, alt=dict(n_threads=1))))
     return G
 
 
